@@ -120,6 +120,18 @@ func RunCheck(cfg CheckConfig) int {
 		defer os.RemoveAll(dir)
 	}
 	run := NewRun(g, dir, cfg.Timeout, cfg.Seed)
+	if prop == "C17" {
+		// the sweep decides the run-time-fault obligations (and the vacuity covers) of every function under contract
+		// everything a later safety obligation may rest on (invariants, callee preconditions, assertions) is decided
+		// too; postconditions and frames, which nothing inside the function depends on, are left to the checks of the
+		// properties that own them unless the function is under contract for C17 alone
+		run.Only = func(o *Obligation) bool {
+			if o.Kind != "post" && o.Kind != "assigns" {
+				return true
+			}
+			return o.fc != nil && o.fc.con != nil && len(o.fc.con.Props) == 1 && o.fc.con.Props[0] == "C17"
+		}
+	}
 	sel := selectContracts(g, prop)
 	reports := make([]*FuncReport, len(sel))
 	// functions in parallel (each function's obligations are themselves parallel)
@@ -247,7 +259,9 @@ func RunCheck(cfg CheckConfig) int {
 			if !r.Obl.Cover && !r.OK {
 				postFailed = true
 			}
-			if r.Obl.Cover && !r.OK && strings.Contains(r.Obl.Name, "#cover.return.") {
+			// only a return point the solver positively found reachable (sat) can expose contradictory exit facts; an
+			// undecided one (timeout) may simply be dead code
+			if r.Obl.Cover && strings.Contains(r.Obl.Name, "#cover.return.") && (!r.OK || r.Verdict.Status != "sat") {
 				deadRet[strings.Replace(r.Obl.Name, "#cover.return.", "#cover.exit.", 1)] = true
 			}
 		}
